@@ -34,7 +34,7 @@ def symbolic_for_list(I, node, env, it, spec, k, qn):
         P.assume(i < n_t)
         x = it.elem_factory(I, "m%d" % len(it.members))
         it.members.append(x)
-        P.event('loop.item', k, x)
+        P.event('loop.item', k, x, id(it))
         I.assign(node.target, x, env)
         snap = R._heap_snapshot(I, env)
         try:
@@ -52,5 +52,11 @@ def symbolic_for_list(I, node, env, it, spec, k, qn):
                                     env.locals.get('__old__'), env.cls_ctx) if g in spec.ghost_step else gh[g]
         extra2[idx_name] = lower_int(i + 1)
         R._prove_inv(I, spec, env, extra2, base + ".preserved")
+        P.event('loop.iteration.end', k)
         raise _pyvc().PathEnd()
     P.assume(i == n_t)
+    # the ghost accumulators after the last iteration stay visible to later clauses
+    P.ghost.setdefault('loop_ghosts', {})[k] = dict(gh)
+    P.event('loop.exit', k, id(it))
+    for g, v in gh.items():
+        env.locals['__g%d_%s' % (k, g)] = v
